@@ -639,6 +639,17 @@ func (r *Raft) startStopReplication() {
 		close(repl.stopCh)
 		delete(r.leaderState.replState, serverID)
 		r.observe(PeerObservation{Peer: repl.peer, Removed: true})
+
+		// Requests to verify leadership that still wait for this server will
+		// not hear from it any more: judge them by the quorum of the new
+		// configuration, otherwise they never resolve while we stay leader.
+		repl.notifyLock.Lock()
+		waiting := repl.notify
+		repl.notify = make(map[*verifyFuture]struct{})
+		repl.notifyLock.Unlock()
+		for v := range waiting {
+			r.reverifyLeader(v)
+		}
 	}
 
 	// Update peers metric
@@ -999,6 +1010,31 @@ func (r *Raft) verifyLeader(v *verifyFuture) {
 		repl.notifyLock.Unlock()
 		asyncNotifyCh(repl.notifyCh)
 	}
+}
+
+// reverifyLeader re-evaluates a pending verifyFuture after a server it was
+// waiting for has been removed from the configuration. This must only be
+// called from the main thread.
+func (r *Raft) reverifyLeader(v *verifyFuture) {
+	v.voteLock.Lock()
+	decided := false
+	if v.notifyCh != nil {
+		v.quorumSize = r.quorumSize()
+		if v.votes >= v.quorumSize {
+			// Answer from here: verifyCh is consumed by this very thread.
+			v.notifyCh = nil
+			decided = true
+		}
+	}
+	v.voteLock.Unlock()
+	if !decided {
+		return
+	}
+	delete(r.leaderState.notify, v)
+	for _, repl := range r.leaderState.replState {
+		repl.cleanNotify(v)
+	}
+	v.respond(nil)
 }
 
 // leadershipTransfer is doing the heavy lifting for the leadership transfer.
